@@ -29,7 +29,7 @@ Check(e) ==
 
 Init == tid \in 1..Len(Traces) /\ l = 1 /\ verdict = "ok"
 Next == /\ verdict = "ok" /\ l <= Len(Traces[tid])
-        /\ verdict' = Check(Traces[tid][l])
+        /\ verdict' = IF Traces[tid][l].ev \notin {"Run", "Pair"} THEN "unknown_event" ELSE Check(Traces[tid][l])
         /\ l' = IF verdict' = "ok" THEN l + 1 ELSE l
         /\ UNCHANGED tid
 Report == (verdict # "ok" \/ l = Len(Traces[tid]) + 1) =>
